@@ -1,6 +1,7 @@
 import EinoV.Oracle.C20Parse
 import EinoV.Expected.C20
 import EinoV.Oracle.C20Decl
+import EinoV.Oracle.C20Keys
 
 namespace EinoV.Oracle.C20
 open Lean EinoV EinoV.Build EinoV.Oracle.C20Parse
@@ -11,6 +12,7 @@ open Lean EinoV EinoV.Build EinoV.Oracle.C20Parse
     on the two addBranch facts that belong to C07 (such cases are compared by C07 only). -/
 def handle (c : Json) : JE Json := do
   if J.strD c "stream" "" == "decl" then return (← C20Decl.handle c)
+  if C20Keys.hasKeys c then return (← C20Keys.handleKeyed c)
   let cs ← parseCase c
   let f := Expected.C20.facts
   let (bEnd, outs, rs) := run f cs.im Ord.id cs.b0 cs.ops
